@@ -109,9 +109,73 @@ pub fn replay_body(case: &Case, f: &Finding, batch_seed: u64, run_index: u64, se
 }
 
 /// One run: generate the case from the seed, treat it completely.
+/// Result shapes of the entry-point matrix.
+fn matrix_values() -> Vec<crate::canon::V> {
+    use evalexpr::Value;
+    vec![
+        Value::Int(3),
+        Value::Int(-9007199254740993),
+        Value::Float(2.5),
+        Value::Float(f64::NAN),
+        Value::Float(-0.0),
+        Value::Boolean(true),
+        Value::String(String::new()),
+        Value::String("a b".into()),
+        Value::Tuple(vec![]),
+        Value::Tuple(vec![Value::Int(7)]),
+        Value::Tuple(vec![Value::Int(1), Value::Float(2.0)]),
+        Value::Tuple(vec![Value::Empty]),
+        Value::Empty,
+    ]
+}
+
+/// Number of run indices at the start of every batch that are taken by the entry-point matrix.
+pub fn matrix_len() -> u64 {
+    (matrix_values().len() * 6) as u64
+}
+
+/// The first runs of every batch are not random: the program `a` (or `f(a)`, the identity
+/// function) with `a` bound to each result shape in turn, through the tree-level and the
+/// string-level entries, on the seam context and on the bare `HashMapContext`. With the sweep
+/// over the eight typed entry points inside `check_case` this is the complete matrix
+/// entry point x result shape x path (every entry point is a view of the one evaluator).
+pub fn matrix_case(index: u64) -> Case {
+    let values = matrix_values();
+    let v = values[(index as usize) % values.len()].clone();
+    let k = (index as usize) / values.len();
+    let read = crate::prog::Expr::Read("a".to_string());
+    let program = if k % 2 == 0 { read } else { crate::prog::Expr::Call("f".to_string(), Some(Box::new(read))) };
+    let (form, entry) = match k / 2 {
+        0 => (Form::Parsed, Entry::Str),
+        1 => (Form::Parsed, Entry::Tree),
+        _ => (Form::Assembled { wrap: false }, Entry::Tree),
+    };
+    Case {
+        program,
+        form,
+        setup: crate::env::Setup {
+            vars: vec![("a".to_string(), v)],
+            fns: vec!["f".to_string()],
+            builtins_disabled: false,
+            aging: 0,
+        },
+        kind: if index % 2 == 0 { CtxKind::Sim } else { CtxKind::Bare },
+        entry,
+        typed: 0,
+    }
+}
+
+pub fn case_of(batch_seed: u64, run_index: u64) -> Case {
+    if run_index < matrix_len() {
+        matrix_case(run_index)
+    } else {
+        gen_case(run_seed(batch_seed, run_index))
+    }
+}
+
 pub fn run_one(prop: Prop, batch_seed: u64, run_index: u64, out: &mut WorkerOut, d: &mut Delegate) {
     let seed = run_seed(batch_seed, run_index);
-    let case = gen_case(seed);
+    let case = case_of(batch_seed, run_index);
     let mut faults_rng = stream(seed, STREAM_FAULTS);
     let before = out.stats.get("evaluations_real");
     let found = {
